@@ -144,7 +144,10 @@ func (C18) Events(env world.Env, mm mc.Model) []string {
 		}
 	}
 	for _, x := range c18Who {
-		add("Delete:%s:%s:%d", x, others(x)[0], 0) // never-sent identity; also the key shape of a block record
+		for _, y := range others(x) { // never-sent identities with an unset or negative time; time 0 is also the key shape of a block record
+			add("Delete:%s:%s:%d", x, y, 0)
+		}
+		add("Delete:%s:%s:%d", x, others(x)[0], -1)
 		// times at which nothing was received but whose digits begin (or extend) those of a received time
 		for _, id := range world.SortedKeys(m.Inbox[x]) {
 			ft := strings.Split(id, "|")
